@@ -28,6 +28,8 @@ func main() {
 	dump := flag.String("dump", "", "debug: dump SSA of functions whose name contains this string")
 	only := flag.String("only", "", "replay: print only obligations whose rule|construct contains this string")
 	verbose := flag.Bool("v", false, "print every obligation")
+	genAnchors := flag.Bool("gen-anchors", false, "maintenance: print the anchor table (functions rules refer to by name) as Go source")
+	noInline := flag.Bool("no-inline", false, "debug: skip the inlining normal form")
 	flag.Parse()
 
 	t0 := time.Now()
@@ -116,6 +118,22 @@ func main() {
 		os.Exit(1)
 	}
 
+	if *genAnchors {
+		lint.GenAnchors(prog, os.Stdout)
+
+		return
+	}
+
+	if !*noInline {
+		prog.Normalize()
+	}
+
+	if *dump == "inline-stats" {
+		lint.DumpInline(prog)
+
+		return
+	}
+
 	if *dump != "" {
 		lint.Dump(prog, *dump)
 
@@ -169,6 +187,17 @@ func main() {
 		}
 	}
 
+	for _, l := range prog.StaleAnchors() {
+		fmt.Printf("UNDECIDED engine: %s\n", l)
+
+		for _, id := range ids {
+			fmt.Printf("VIOLATION property=%s replay=evidence/replay/%s-anchors.json\n", id, id)
+		}
+
+		exit = 1
+	}
+
+	fmt.Printf("-- normal form: %d call sites inlined in %d functions (%d helpers)\n", prog.Inline.Sites, prog.Inline.Functions, len(prog.Inline.Callees))
 	fmt.Printf("-- %d properties, load %.1fs, total %.1fs\n", len(ids), prog.LoadDur.Seconds(), time.Since(t0).Seconds())
 	os.Exit(exit)
 }
